@@ -16,6 +16,11 @@ class FakeSocket(object):
     def sendall(self, data):
         if self.broken:
             raise real_socket.error('broken pipe (simulated)')
+        if self.world is not None and self.world.fail_sends and (self.world.reset or self.world.eof or
+                                                                 self.world.write_reset):
+            # the peer has reset / closed the connection: the kernel refuses the write (and later reads)
+            self.world.reset = True
+            raise ConnectionResetError('connection reset by peer (simulated)')
         self.sent.append(bytes(data))
         if self.world is not None:
             self.world.wire.append(bytes(data))
@@ -110,12 +115,14 @@ class World(object):
         self.budget = budget
         self.iterations = 0
         self.prov = None
+        self.fail_sends = False   # sendall raises once the peer has reset / closed the connection
+        self.write_reset = False  # the peer's reset has arrived but was not yet noticed by a read
         self.snapshots = []       # per-iteration observations
         self.frames = []          # byte strings handed to the PDU decoders
 
     # ---- transport -----------------------------------------------------
     def readable(self):
-        return bool(self.pending) or self.eof or self.reset
+        return bool(self.pending) or self.eof or self.reset or self.write_reset
 
     def recv(self, n):
         self._spend()
@@ -126,8 +133,9 @@ class World(object):
             if n == 0:
                 raise Blocked('recv(0) with data pending')
             return data
-        if self.reset:
+        if self.reset or self.write_reset:
             self.reset = False
+            self.write_reset = False
             self.eof = True
             raise real_socket.error('connection reset (simulated)')
         if self.eof:
@@ -156,6 +164,10 @@ class World(object):
         if k == 'seg':
             if prov.dul_socket is not None:
                 self.pending += op[1]
+        elif k == 'segreset':       # bytes, and right behind them the peer's reset: reads still get the bytes
+            if prov.dul_socket is not None:
+                self.pending += op[1]
+            self.write_reset = True
         elif k == 'close':
             self.eof = True
         elif k == 'reset':
@@ -190,11 +202,12 @@ def observe_state(prov, w):
 
 
 def run_provider(script, acceptor=True, max_pdu_length=65536, store_in_file=frozenset(), get_file_cb=None,
-                 accepted_contexts=None, budget=20000):
+                 accepted_contexts=None, budget=20000, fail_sends=False):
     """Run the real provider loop over a script.  Returns a dict describing the run."""
     from pynetdicom2 import dulprovider, fsm
     import queue
     w = World(script, budget)
+    w.fail_sends = fail_sends
     fake_mod = FakeSocketModule(w)
     saved = (fsm.socket, dulprovider.time, dulprovider.select)
 
